@@ -67,7 +67,7 @@ def run(ctx):
             raise Inconclusive("driver printed no summary")
         for key, v in re.findall(r"(\w+)=(\d+)", line[-1]):
             counts[key] = counts.get(key, 0) + int(v)
-    for need in ("cases", "dkg", "deliver", "dupDeliver", "arrive", "recovered", "superset", "below", "k", "big"):
+    for need in ("cases", "dkg", "deliver", "dupDeliver", "arrive", "recovered", "superset", "below", "k", "big", "concurrent"):
         if counts.get(need, 0) == 0:
             raise Inconclusive("vacuity: no %s events were produced" % need)
     # 3. one monitor run over all shards (DkgStart / CaseStart reset the bound state)
@@ -106,6 +106,7 @@ def run(ctx):
         "below_threshold_cases": counts["below"],
         "k_table_model": ktable[:10],
         "threshold_sweep_sizes": counts["k"],
+        "concurrent_recovery_runs": counts["concurrent"],
         "big_group_sizes": bign if quick else sorted(set(bign + [b + d for b in bign for d in (-1, 1)])),
         "action_coverage": ref["coverage"],
         "exhaustive": True,
